@@ -126,7 +126,13 @@ type viewMon struct {
 	n     int
 }
 
-func (m *viewMon) Begin(h *Hand, gs *pf.GameState) *vlib.Violation { return checkViews(h, gs) }
+func (m *viewMon) Begin(h *Hand, gs *pf.GameState) *vlib.Violation {
+	if m.every > 1 {
+		// which states of a hand are sampled differs from hand to hand
+		m.n = int(vlib.Hash(h.Cfg.Deck) % uint64(m.every))
+	}
+	return checkViews(h, gs)
+}
 func (m *viewMon) End(h *Hand, gs *pf.GameState) *vlib.Violation {
 	folded, shown := 0, 0
 	for _, p := range gs.Players {
@@ -157,7 +163,24 @@ func checkViews(h *Hand, gs *pf.GameState) *vlib.Violation {
 	if len(gs.Status.Burned) > 0 {
 		h.Facts["burned-cards"] = true
 	}
-	for v := -1; v < len(gs.Players); v++ {
+	// viewers: the observer, every seat of the hand, and seats of the table that
+	// are not in the hand (a table passes -1 for a player who is not dealt in, or
+	// an index beyond the players): they are shown what an observer is shown at most
+	n := len(gs.Players)
+	type viewer struct {
+		v   int // the seat whose own cards stay visible (matches no seat for the observer and outsiders)
+		arg int // what AsPlayer is called with
+		who string
+	}
+	viewers := []viewer{{v: -1, who: "observer"}}
+	for i := 0; i < n; i++ {
+		viewers = append(viewers, viewer{v: i, arg: i, who: fmt.Sprintf("seat %d", i)})
+	}
+	for _, a := range []int{-1, n, n + 7} {
+		viewers = append(viewers, viewer{v: -2, arg: a, who: fmt.Sprintf("seat %d, which is not in the hand,", a)})
+	}
+	for _, vw := range viewers {
+		v, who := vw.v, vw.who
 		s := JSONClone(gs)
 		var pan interface{}
 		func() {
@@ -166,16 +189,12 @@ func checkViews(h *Hand, gs *pf.GameState) *vlib.Violation {
 					pan = e
 				}
 			}()
-			if v < 0 {
+			if v == -1 {
 				s.AsObserver()
 			} else {
-				s.AsPlayer(v)
+				s.AsPlayer(vw.arg)
 			}
 		}()
-		who := "observer"
-		if v >= 0 {
-			who = fmt.Sprintf("seat %d", v)
-		}
 		if pan != nil {
 			return vlib.V("C15", "panic", "view for %s panicked: %v", who, pan)
 		}
@@ -245,8 +264,10 @@ func blankCombination(c *pf.CombinationInfo) bool {
 
 func viewKind(v int, closed bool) string {
 	k := "player"
-	if v < 0 {
+	if v == -1 {
 		k = "observer"
+	} else if v < -1 {
+		k = "outsider"
 	}
 	if closed {
 		return k + "-closed"
